@@ -109,8 +109,8 @@ func genC18(r *Rnd, t Tier) *Case {
 }
 
 type attemptRec struct {
-	idx        int
-	recv, end  *Event
+	idx       int
+	recv, end *Event
 }
 
 func adapterAttempts(res *RunResult) (atts []*attemptRec, ret *Event, read *Event, closes map[int]int, cancel *Event) {
